@@ -48,6 +48,10 @@ pub fn len_of_ref(s: &String) -> usize {
     log_call("len_of_ref", arg(s), None);
     s.len()
 }
+pub fn len_of_ref_u64(s: &String) -> u64 {
+    log_call("len_of_ref", arg(s), None);
+    s.len() as u64
+}
 pub fn str_to_wrap(s: String) -> Wrap {
     log_call("str_to_wrap", arg(&s), None);
     Wrap(s)
